@@ -24,7 +24,7 @@ func init() {
 			"user functions are pure; rows not matching a FilteredApply clause may hold null or \"\" in string destinations; strings are valid UTF-8 (upper-casing of invalid UTF-8 is not specified)",
 			"observation through typed views is faithful (C09); clause semantics are those of C02",
 		},
-		Stages:   stages(15000, 400000, 500, 0),
+		Stages:   stages(15000, 1400000, 500, 0),
 		RunCase:  runC06,
 		Conclude: shapeConclude(40),
 	})
